@@ -50,9 +50,11 @@ pub fn run(seed: u64, rounds: usize, threads: usize, ops_per_thread: usize, time
     for round in 0..rounds {
         let mut rng = StdRng::seed_from_u64(seed.wrapping_add(round as u64));
         let clock = StressClock(Arc::new(AtomicI64::new(1000)));
+        // (several access buffers in two rounds of three: their drains run in parallel)
+        let pool_size = *[1usize, 2, 4].get((round / 3) % 3).unwrap();
         let cache = Arc::new(CacheD::<u64, u64>::new(
             ConfigBuilder::new(*[1u64, 4, 64].get(rng.gen_range(0..3)).unwrap(), 16, if shutdown_mid { 1_000_000 } else { *[6i64, 20, 200].get(rng.gen_range(0..3)).unwrap() })
-                .shards(2).command_buffer_size(if shutdown_mid { *[2usize, 256, 8192].get(rng.gen_range(0..3)).unwrap() } else { *[1usize, 1, 2].get(rng.gen_range(0..3)).unwrap() }).access_pool_size(1).access_buffer_size(*[1usize, 2, 8].get(round % 3).unwrap())
+                .shards(2).command_buffer_size(if shutdown_mid { *[1usize, 1, 2, 256, 8192].get(rng.gen_range(0..5)).unwrap() } else { *[1usize, 1, 2].get(rng.gen_range(0..3)).unwrap() }).access_pool_size(pool_size).access_buffer_size(*[1usize, 2, 8].get(round % 3).unwrap())
                 .clock(Box::new(clock.clone())).ttl_tick_duration(Duration::from_millis(1))
                 .key_hash_fn(Box::new(|key: &u64| *key)).build()));
         let deadline = Instant::now() + timeout;
@@ -60,25 +62,46 @@ pub fn run(seed: u64, rounds: usize, threads: usize, ops_per_thread: usize, time
         let stop = Arc::new(AtomicBool::new(false));
         let done_ops = Arc::new(AtomicUsize::new(0));
         let lookups = Arc::new(AtomicUsize::new(0));
-        let (pool_size, buffer_size) = (1usize, *[1usize, 2, 8].get(round % 3).unwrap());
+        let buffer_size = *[1usize, 2, 8].get(round % 3).unwrap();
         {
             let (clock, stop) = (clock.clone(), stop.clone());
             std::thread::spawn(move || { while !stop.load(Ordering::SeqCst) { clock.0.fetch_add(1, Ordering::SeqCst); std::thread::sleep(Duration::from_millis(2)); } });
         }
-        let with_shutdown = rng.gen_bool(0.5);
+        let with_shutdown = rng.gen_bool(0.5) || (shutdown_mid && round % 4 == 1);
         for thread in 0..threads {
             let (cache, sender, done_ops, lookups) = (cache.clone(), sender.clone(), done_ops.clone(), lookups.clone());
             let thread_seed: u64 = rng.gen();
+            // (every fourth round with a shutdown in the middle: nothing but the cheapest command, a delete of an absent key, from
+            //  every thread as fast as it goes, so that senders are queueing at the very moment the worker winds down)
+            let hammer = shutdown_mid && round % 4 == 1;
             std::thread::spawn(move || {
                 let mut rng = StdRng::seed_from_u64(thread_seed);
                 let mut ok = true;
+                let mut kept: Vec<CommandSendResult> = Vec::new();
+                if hammer {
+                    // a tight loop of the cheapest command until the cache refuses (it is shut down a moment after the start)
+                    let mut key = (thread as u64 + 1) << 32;
+                    let started = Instant::now();
+                    loop {
+                        key += 1;
+                        match cache.delete(key) {
+                            Ok(ack) => { if kept.len() == 8 { kept.remove(0); } kept.push(Ok(ack)); }
+                            Err(_) => break,
+                        }
+                        if started.elapsed() > Duration::from_secs(2) { break; }
+                    }
+                    done_ops.fetch_add(ops_per_thread, Ordering::SeqCst);
+                    for result in kept { if !wait(result, deadline) { ok = false; } }
+                    let _ = sender.send((thread, ok));
+                    return;
+                }
                 for index in 0..ops_per_thread {
                     // (many keys in the rounds with a shutdown in the middle: clearing the structures then takes a while)
                     let key = rng.gen_range(0..if shutdown_mid { 4096u64 } else { 4u64 });
                     let value = (thread * 100_000 + index) as u64;
                     // (rounds with a shutdown in the middle: mostly weight-changing upserts, so that the worker is busy with queued
                     //  commands while shutdown() clears the structures)
-                    let roll = if rng.gen_range(0..100) < reads_pct { rng.gen_range(6..10) } else if shutdown_mid && rng.gen_bool(0.6) { 4 } else { rng.gen_range(0..10) };
+                    let roll = if hammer { 5 } else if rng.gen_range(0..100) < reads_pct { rng.gen_range(6..10) } else if shutdown_mid && rng.gen_bool(0.6) { 4 } else { rng.gen_range(0..10) };
                     let result = match roll {
                         0 | 1 => Some(cache.put_with_weight(key, value, rng.gen_range(1..5))),
                         2 => Some(cache.put_with_weight_and_ttl(key, value, rng.gen_range(1..5), Duration::from_secs(rng.gen_range(1..4)))),
@@ -90,22 +113,32 @@ pub fn run(seed: u64, rounds: usize, threads: usize, ops_per_thread: usize, time
                         _ => { lookups.fetch_add(1, Ordering::SeqCst); let _ = cache.get(&key); None }
                     };
                     if let Some(result) = result {
-                        // (rounds with a shutdown in the middle let the queue grow: few acknowledgements are awaited)
-                        if rng.gen_bool(if shutdown_mid { 0.02 } else { 0.6 }) && !wait(result, deadline) { ok = false; break; }
+                        // (rounds with a shutdown in the middle let the queue grow: few acknowledgements are awaited at once, but
+                        //  the last ones of every thread are kept and awaited at the end: none may stay pending for ever)
+                        if rng.gen_bool(if shutdown_mid { 0.02 } else { 0.6 }) { if !wait(result, deadline) { ok = false; break; } }
+                        else if shutdown_mid { if kept.len() == 8 { kept.remove(0); } kept.push(result); }
                     }
                     done_ops.fetch_add(1, Ordering::SeqCst);
                 }
+                for result in kept { if !wait(result, deadline) { ok = false; } }
                 let _ = sender.send((thread, ok));
             });
         }
         drop(sender);
         // shutdown() in the middle of the traffic (every other round): it must return, and so must every caller
+        let hammer_round = shutdown_mid && round % 4 == 1;
         let shutdown_done = if shutdown_mid && with_shutdown {
             let (cache, done_ops) = (cache.clone(), done_ops.clone());
             let after = rng.gen_range(0..(threads * ops_per_thread / 2).max(1));
             let (done_sender, done_receiver) = mpsc::channel();
             std::thread::spawn(move || {
-                while done_ops.load(Ordering::SeqCst) < after { std::thread::yield_now(); }
+                if hammer_round {
+                    let pause = Duration::from_micros(150 + (round as u64 % 7) * 40);
+                    let begin = Instant::now();
+                    while begin.elapsed() < pause { std::hint::spin_loop(); }
+                } else {
+                    while done_ops.load(Ordering::SeqCst) < after { std::thread::yield_now(); }
+                }
                 cache.shutdown();
                 let _ = done_sender.send(());
             });
